@@ -77,7 +77,7 @@ CHECKS = {
  "C15": dict(
    technique="TLA+ relational trace validation: related runs of the real moving averages recorded side by side, the algebraic laws checked by TLC in exact fixed point; impulse responses against exact rational weight profiles for every length",
    category="model_checking",
-   text="spec/Trace_Laws.tla states affine equivariance (any a incl. negative, any b), reproduction of constants, range containment for the non-negative kinds, superposition for the linear kinds, and the documented weight profile as exact rationals (SMA, WMA, SWMA, TRIMA, LinReg, Conv = its weight vector incl. zero weights at either end) or as the exact recurrence (EMA, DMA, TMA, DEMA, TEMA, RMA, WSMA). The harness runs the 15 MA kinds + Conv + VWMA in related instances on float streams and logs outputs; TLC checks every step within the summed allowances. Streams hold plateaus of exactly n-2..n+1 unchanged inputs, zero volumes, and run beyond 1024 steps; impulse responses are recorded for lengths 1..12,31..33,63,64,126..128,253,254 (quick) / all 1..254 (thorough), and again as LATE impulses (the unit input arrives after 252/995/1020/2044/4092/65532 quiet steps: time invariance of the profile).",
+   text="spec/Trace_Laws.tla states affine equivariance (any a incl. negative, any b), reproduction of constants, range containment for the non-negative kinds, superposition for the linear kinds, and the documented weight profile as exact rationals (SMA, WMA, SWMA, TRIMA, LinReg, Conv = its weight vector incl. zero weights at either end) or as the exact recurrence (EMA, DMA, TMA, DEMA, TEMA, RMA, WSMA). The harness runs the 15 MA kinds + Conv + VWMA in related instances on float streams and logs outputs; TLC checks every step within the summed allowances. Streams hold plateaus of exactly n-2..n+1 unchanged inputs, zero volumes, and run beyond 1024 steps; impulse responses are recorded for lengths 1..12,31..33,63,64,126..128,253,254 (quick) / all 1..254 (thorough), and again as LATE impulses (the unit input arrives after 252/508/995/1020/2044/4092/8188 quiet steps: time invariance of the profile).",
    design_ref="DESIGN.md 5/C15",
    note="Laws are relations between executions, so they need no evaluation of the average itself and are independent of C02/C03."),
  "C08": dict(
